@@ -9,22 +9,22 @@ BATCH_INVS = ("TypeOK ConcurrencyBound WgCount AllSettledAtPost NoFakeSuccess At
 PLAN = {
     "C06": dict(mc_q=[("seq", 3, 1, 2, True), ("gated", 3, 2, 1, True), ("gatedcancel", 2, 2, 1, True), ("eres", 2, 2, 2, True), ("conc", 2, 2, 2, False)],
                 mc_t=[("seq", 4, 1, 2, True), ("gated", 4, 3, 1, True), ("gated", 3, 2, 2, True), ("gatedcancel", 3, 2, 2, True), ("conc", 3, 2, 2, False)],
-                gen_q=("continue,stop,cancel,single,empty", 60), gen_t=("continue,stop,cancel,single,empty", 1500)),
+                gen_q=("continue,stop,cancel,single,empty,waves,storm", 60), gen_t=("continue,stop,cancel,single,empty,waves,storm", 1500)),
     "C07": dict(mc_q=[("seq", 3, 1, 2, True), ("gated", 3, 2, 2, True), ("conc", 2, 2, 2, False)],
                 mc_t=[("seq", 4, 1, 3, True), ("gated", 3, 2, 2, True), ("gated", 4, 3, 1, True), ("conc", 3, 2, 2, False)],
-                gen_q=("continue", 150), gen_t=("continue", 4000)),
+                gen_q=("continue,waves,storm", 120), gen_t=("continue,waves,storm", 3000)),
     "C08": dict(mc_q=[("gated", 3, 2, 1, True), ("conc", 2, 2, 2, False)],
                 mc_t=[("gated", 4, 3, 1, True), ("conc", 3, 2, 2, False), ("conc", 3, 3, 1, False)],
-                gen_q=("barrier,continue", 80), gen_t=("barrier,continue,stop", 1500)),
-    "C09": dict(mc_q=[("seq", 3, 1, 2, True), ("gated", 3, 2, 2, True), ("conc", 2, 2, 2, False)],
-                mc_t=[("seq", 4, 1, 2, True), ("gated", 4, 3, 1, True), ("gated", 3, 2, 2, True), ("conc", 3, 2, 2, False)],
-                gen_q=("stop", 150), gen_t=("stop", 4000)),
+                gen_q=("barrier,continue,rerun", 80), gen_t=("barrier,continue,stop,rerun", 1500)),
+    "C09": dict(mc_q=[("seq", 3, 1, 2, True), ("gated", 3, 2, 2, True), ("gatedcancel", 2, 2, 1, True), ("conc", 2, 2, 2, False)],
+                mc_t=[("seq", 4, 1, 2, True), ("gated", 4, 3, 1, True), ("gated", 3, 2, 2, True), ("gatedcancel", 3, 2, 2, True), ("conc", 3, 2, 2, False)],
+                gen_q=("stop,cancel,bigstop", 100), gen_t=("stop,cancel,bigstop", 2500)),
     "C11": dict(mc_q=[("gatedcancel", 2, 2, 2, True), ("wait", 2, 2, 2, True), ("cancel", 2, 2, 1, False)],
                 mc_t=[("gatedcancel", 3, 2, 2, True), ("wait", 3, 2, 2, True), ("cancel", 3, 2, 2, False)],
                 gen_q=("cancel", 150), gen_t=("cancel", 4000)),
     # batch parts of engine-family properties
     "C02": dict(mc_q=[("seq", 2, 1, 3, True), ("gated", 2, 2, 2, True)], mc_t=[("seq", 3, 1, 4, True), ("gated", 3, 2, 3, True)],
-                gen_q=("continue,stop", 60), gen_t=("continue,stop", 1500)),
+                gen_q=("continue,stop,storm,waves", 60), gen_t=("continue,stop,storm,waves", 1500)),
     "C04": dict(mc_q=[("seq", 2, 1, 1, True)], mc_t=[("seq", 3, 1, 2, True), ("gated", 2, 2, 1, True)],
                 gen_q=("continue", 40), gen_t=("continue,stop", 800)),
     "C17": dict(mc_q=[("eres", 2, 2, 2, True)], mc_t=[("eres", 3, 2, 2, True), ("seq", 3, 1, 2, True)],
@@ -75,9 +75,9 @@ def collect(pid, tier, seed, d, binp):
         for s in scn_lines:
             f.write(s + "\n")
     hist = os.path.join(d, "batch_hist.ndjson")
-    cap = 2500 if tier == "quick" else 30000
+    cap = 2500 if tier == "quick" else 10000
     run_harness(binp, ["batch", "--scn", scnp, "--out", hist, "--seed", str(seed), "--count", str(count), "--modes", modes,
-                       "-x", "maxscn=%d" % cap])
+                       "-x", "maxscn=%d,bigcount=%d" % (cap, 6 if tier == "quick" else 40)])
     fails, drifts, summ = judge_histories(d, "TPBatch", hist, pid, shards=8)
     log("judged %d batch histories (%d events): %d failing, %d drifting" % (summ.get("scenarios", 0), summ.get("events", 0), len(fails), len(drifts)))
 
@@ -86,7 +86,7 @@ def collect(pid, tier, seed, d, binp):
         c = r["cfg"]
         return (c["via"] != "flow" and c["n"] <= 6 and c["c"] <= 3 and c["sched"] != "barrier"
                 and not any(e["ev"] in ("stuck", "hang", "panic", "routed") for e in r["h"]))
-    tv_n, tv_ok, tv_states, tv_trans = trace_validate(d, "TraceBatch", hist, keep=small, shards=8)
+    tv_n, tv_ok, tv_states, tv_trans = trace_validate(d, "TraceBatch", hist, keep=small, shards=8, limit=1500 if tier == "quick" else 12000)
     states += tv_states
     transitions += tv_trans
     unexplained = tv_n - len(tv_ok)
